@@ -899,3 +899,30 @@ impl Axecutor {
         self.internal_mem_read_128(address)
     }
 }
+
+/// Read-only view of the memory areas for the verification harness (`--cfg ax_verif` only)
+#[cfg(ax_verif)]
+pub struct VerifArea {
+    pub name: Option<String>,
+    pub start: u64,
+    pub length: u64,
+    pub data: Vec<u8>,
+    pub access: u32,
+}
+
+#[cfg(ax_verif)]
+impl Axecutor {
+    pub fn verif_areas(&self) -> Vec<VerifArea> {
+        self.state
+            .memory
+            .iter()
+            .map(|a| VerifArea {
+                name: a.name.clone(),
+                start: a.start,
+                length: a.length,
+                data: a.data.clone(),
+                access: a.access,
+            })
+            .collect()
+    }
+}
